@@ -64,7 +64,7 @@ func (a Float32) ConvertConstScalar(t ScalarType) ConstScalar {
   case Float32Type:
     return a
   default:
-    return NewConstScalar(t, a.GetFloat64())
+    return convertConstScalar(a, t)
   }
 }
 func (a Float32) ConvertScalar(t ScalarType) Scalar {
